@@ -25,8 +25,9 @@ WORKER = os.path.join(env.VERIF, 'checks', 'c19_worker.py')
 CHEAP = ['str', 'fmt_h', 'fmt_A', 'fmt_m', 'fmt_a', 'atoms_order', 'chiral_morgan', 'smiles_atoms_order', 'sssr',
          'atoms_rings_sizes', 'connected_components', 'linear_hash_set', 'morgan_hash_set', 'stereo_sets', 'labels']
 MEDIUM = ['linear_fingerprint', 'morgan_fingerprint', 'automorphism', 'self_sub', 'self_sub_all', 'kekule', 'thiele',
-          'canonicalize', 'neutralize', 'clean_stereo', 'clean_isotopes', 'implicify_hydrogens', 'explicify_hydrogens']
-EXPENSIVE = ['standardize', 'enumerate_kekule', 'enumerate_tautomers']
+          'canonicalize', 'neutralize', 'morgan_hash_smiles', 'morgan_smiles_hash', 'linear_hash_smiles', 'linear_smiles_hash', 'clean_stereo', 'clean_isotopes', 'implicify_hydrogens', 'explicify_hydrogens']
+EXPENSIVE = ['standardize', 'enumerate_kekule', 'enumerate_tautomers', 'canonicalize_log', 'standardize_log', 'neutralize_log',
+             'standardize_charges_log', 'fix_resonance_log', 'implicify_hydrogens_log']
 N_SMARTS = 36
 EXTRA_SMILES = [
     'C[C@H](N)C(=O)O', 'C[C@@H](O)[C@H](O)C', 'C/C=C/C', 'C/C=C\\Cl', 'CC=[C@]=CCl', 'C[C@H]1CC[C@@H](C)CC1', 'C[C@H]1C[C@@H]1C',
@@ -60,13 +61,18 @@ FILES = ['isomorphism.sdf', 'mcs.sdf', 'standardize.sdf', 'arenes.sdf', 'hbonds.
          'morgan_ruiner.sdf', 'stereo.sdf', 'MR.rdf', 'ions.rdf', 'standardize.rdf', 'implicit.mrv', 'cycle.sdf']
 RXN_OBS = ['rxn_str', 'rxn_fmt_m', 'rxn_fmt_h', 'rxn_cgr', 'rxn_cgr_order', 'rxn_centers', 'rxn_canonicalize', 'rxn_standardize',
            'rxn_kekule', 'rxn_thiele', 'rxn_members', 'rxn_member_orders', 'rxn_member_atoms_order', 'rxn_member_mapping', 'rxn_hash_eq',
-           'rxn_clean_stereo', 'rxn_clean_isotopes', 'rxn_implicify_hydrogens',
+           'rxn_clean_stereo', 'rxn_canonicalize_log', 'rxn_standardize_log', 'rxn_clean_isotopes', 'rxn_implicify_hydrogens',
            'rxn_explicify_hydrogens']
 RXN_SMILES = ['CCO.CC(=O)O>>CC(=O)OCC.O', '[CH3:1][CH2:2][OH:3].[CH3:4][C:5](=[O:6])[OH:7]>>[CH3:4][C:5](=[O:6])[O:3][CH2:2][CH3:1].[OH2:7]',
               'c1ccccc1.Cl>[Al](Cl)(Cl)Cl>Clc1ccccc1', 'C=C.C=CC=C>>C1CCC=CC1', 'CC(=O)C>>CC(O)=C', 'OC(=O)c1ccccc1.CN>>CNC(=O)c1ccccc1.O',
               '[Na+].[OH-].CCl>>CO.[Na+].[Cl-]', 'C[C@H](O)C(=O)O>>C[C@@H](O)C(=O)O', 'C/C=C/C.BrBr>>C[C@H](Br)[C@@H](C)Br',
               'CC#N.O>>CC(N)=O', 'c1ccncc1.CI>>C[n+]1ccccc1.[I-]', 'O=C1CCCCC1.NO>>ON=C1CCCCC1.O', 'CCBr.[Mg]>>CC[Mg]Br',
-              'C1CC1.[H][H]>>CCC', 'N#N.[H][H].[H][H].[H][H]>>N.N']
+              'C1CC1.[H][H]>>CCC', 'N#N.[H][H].[H][H].[H][H]>>N.N',
+              # atom-to-atom mapping errors in two groups at once (the mapping fixer has to remap several groups)
+              '[CH3:1][C:2](=[O:3])[O:4][CH3:5].[CH3:6][C:7](=[O:8])[O:9][CH3:10].[OH2:11].[OH2:12]>>[CH3:1][C:2](=[O:4])[OH:3].[CH3:6][C:7](=[O:9])[OH:8].[CH3:5][OH:11].[CH3:10][OH:12]',
+              '[CH3:1][N+:2](=[O:3])[O-:4].[CH3:5][N+:6](=[O:7])[O-:8]>>[CH3:1][N+:2](=[O:4])[O-:3].[CH3:5][N+:6](=[O:8])[O-:7]',
+              '[CH3:1][C:2](=[O:3])[OH:4].[CH3:6][C:7](=[O:8])[OH:9].[CH3:5][OH:11].[CH3:10][OH:12]>>[CH3:1][C:2](=[O:4])[O:11][CH3:5].[CH3:6][C:7](=[O:9])[O:12][CH3:10].[OH2:3].[OH2:8]',
+              '[CH3:1][C:2](=[O:3])[O:4][CH2:5][CH2:6][O:7][C:8](=[O:9])[CH3:10].[OH2:11].[OH2:12]>>[CH3:1][C:2](=[O:4])[OH:3].[CH3:10][C:8](=[O:7])[OH:9].[OH:11][CH2:5][CH2:6][OH:12]']
 _corpus_cache = None
 
 
@@ -115,10 +121,10 @@ def make_events(rng, n_mols, tier, cfg, corpus=None):
             per.append(ev)
             continue
         names = list(CHEAP)
-        names += rng.sample(MEDIUM, 4 if tier == 'quick' else 6)
+        names += rng.sample(MEDIUM, 6 if tier == 'quick' else 9)
         names += ['smarts%d%s' % (k, rng.choice(['', '_all'])) for k in rng.sample(range(N_SMARTS), 5 if tier == 'quick' else 8)]
-        if rng.random() < (0.25 if tier == 'quick' else 0.5):
-            names += rng.sample(EXPENSIVE, 1)
+        if rng.random() < (0.4 if tier == 'quick' else 0.7):
+            names += rng.sample(EXPENSIVE, 2)
         rng.shuffle(names)
         ev = [['load', i]]
         copy_first = rng.random() < 0.3
@@ -314,7 +320,8 @@ def _main(a, scratch):
     crng.shuffle(special)
     n = min(T['mols'], len(corpus_all))
     core_idx = [k for k, c in enumerate(corpus_all) if c[0] == 'smi' and c[1] in CORE_SMILES] + \
-               [k for k, c in enumerate(corpus_all) if c[0] in ('rxnsmi',)][:6]
+               [k for k, c in enumerate(corpus_all) if c[0] in ('rxnsmi',)][:6] + \
+               [k for k, c in enumerate(corpus_all) if c[0] == 'rxnsmi' and ':11]' in c[1]]
     first = core_idx + [k for k in special[:n // 4] if k not in set(core_idx)]
     chosen = (first + [k for k in idx if k not in set(first)])[:max(n, len(core_idx) + 40)]
     slice_n = T.get('slice', n)
@@ -381,6 +388,18 @@ def _main(a, scratch):
         if time.time() - t0 > (1500 if tier == 'thorough' else 400):
             probes['stopped_early_wall'] += 1
             break
+
+    # regression: replay files of repaired findings must stay quiet (a fixed entry suppresses nothing)
+    import glob
+    for f in sorted(glob.glob(os.path.join(env.VERIF, 'replays', 'fixed', '*.json'))):
+        with open(f) as fh:
+            t = json.load(fh)
+        if t.get('property') != PROP:
+            continue
+        probes['regression_replays'] += 1
+        v, _ = replay_file(f, scratch)
+        if v is not None:
+            found.append({'class': v['class'], 'key': t['key'], 'jobs': t['jobs'], 'molecule': t.get('molecule'), 'detail': v['detail']})
 
     known = core.load_known(PROP)
     exit_code = core.EXIT_OK
